@@ -11,7 +11,7 @@ bare '?' check raises AnnotationError again (the leaf label is cleared)."""
 from __future__ import annotations
 
 import warnings
-from typing import Union
+from typing import NamedTuple, NewType, Optional, Union
 
 import numpy as np
 from hypothesis import given, strategies as st
@@ -43,7 +43,8 @@ ASSUMPTIONS = [
     "reference matcher with leaf labels in vf/models/dimlang.py + vf/models/ptcheck.py",
 ]
 
-WRAPS = ["plain", "union", "tuple", "nested", "lazy", "plain"]
+WRAPS = ["plain", "union", "tuple", "nested", "lazy", "optional", "newtype", "ntfield", "plain"]
+_NT_CLS = {}
 
 
 def _helper(x):
@@ -81,6 +82,15 @@ def leaf_annotation(spec, wrap):
         return base
     if wrap == "union":
         return Union[int, base]
+    if wrap == "newtype":
+        return NewType("VfArr", base)  # at run time: exactly the underlying annotation
+    if wrap == "ntfield":
+        # a NamedTuple class whose first field carries the '?' annotation: its instances are the leaves
+        if spec not in _NT_CLS:
+            _NT_CLS[spec] = NamedTuple("VfPair", [("p", base), ("q", int)])
+        return _NT_CLS[spec]
+    if wrap == "optional":
+        return Optional[base]  # None is then a leaf like any other (it occupies a leaf position)
     if wrap == "tuple":
         return tuple[base, int]
     if wrap == "nested":
@@ -88,19 +98,23 @@ def leaf_annotation(spec, wrap):
     raise AssertionError(wrap)
 
 
-def build_value(desc, wrap, alias=False, enum_keys=False):
+def build_value(desc, wrap, alias=False, enum_keys=False, spec=None):
     """alias=True: leaves of equal shape within one tree are the very same array object (tied weights)."""
     cache = {}
 
     def payload(p):
         if p == "int":
             return 12345
+        if p == "none":
+            return None
         if wrap == "lazy":
             return LazyArr(p)
         if alias:
             arr = cache.setdefault(tuple(p), np.zeros(tuple(p)))
         else:
             arr = np.zeros(tuple(p))
+        if wrap == "ntfield":
+            return _NT_CLS[spec](arr, 7)
         return (arr, 7) if wrap == "tuple" else arr
 
     # enum_keys: dict keys are members of str-valued Enums, == to (and hashing like) the plain strings: the same tree structure
@@ -155,7 +169,7 @@ def check_case(ctx, case):
             o = dl.match([ptok.meaning()], pshape, m)
             al, newm = set(o.allowed), (o.ctx or m)
         else:
-            al, newm, _, _ = model_pytree_check(m, alt_meanings if (alt_last and i == len(trees) - 1) else meanings, "T", trees[i], accept_payload=(lambda p: p == "int") if wrap == "union" else None,
+            al, newm, _, _ = model_pytree_check(m, alt_meanings if (alt_last and i == len(trees) - 1) else meanings, "T", ("none",) if tuple(trees[i]) == ("leaf", "none") else trees[i], accept_payload=(lambda p: p in ("int", "none")) if wrap in ("union", "optional") else None,
                                                 single_position=(wrap == "nested"))
         if al != {dl.TRUE}:
             allowed_all = al
@@ -175,7 +189,7 @@ def check_case(ctx, case):
                 vals.append(np.zeros(pshape))
             else:
                 params.append(f"t{i}: PTALT" if (alt_last and i == len(trees) - 1) else f"t{i}: PT")
-                vals.append(build_value(trees[i], wrap, alias=bool(case.get('alias')), enum_keys=bool(case.get("enum_keys")) and i >= 1))
+                vals.append(build_value(trees[i], wrap, alias=bool(case.get('alias')), enum_keys=bool(case.get("enum_keys")) and i >= 1, spec=spec if not (alt_last and i == len(trees) - 1) else alt_spec))
         src = f"def fn({', '.join(params)}):\n    return None\n"
         exec(compile(src, "<vf-c16>", "exec"), ns)
         with warnings.catch_warnings():
@@ -201,7 +215,7 @@ def check_case(ctx, case):
     sizes_by_pos = {}
     for t in trees[:1]:
         for i, lf in enumerate(pt.leaves(t)):
-            if lf[1] != "int":
+            if lf[1] not in ("int", "none"):
                 sizes_by_pos[i] = tuple(lf[1])
     nontrivial = len(trees) >= 2 and len(set(sizes_by_pos.values())) >= 2
     ctx.note([spec, wrap, case["trees"], plain], nontrivial,
@@ -289,7 +303,7 @@ def c16_case(draw):
     toks = draw(q_spec())
     meanings = [t.meaning() for t in toks]
     wrap = draw(st.sampled_from(WRAPS))
-    allow = ("tuple", "list", "dict") if wrap in ("nested", "tuple") else ("tuple", "list", "dict", "none")
+    allow = ("tuple", "list", "dict") if wrap in ("nested", "tuple", "optional", "ntfield") else ("tuple", "list", "dict", "none")
     base = draw(gt.tree_desc(st.just(0), max_depth=3, max_leaves=5, allow=allow))
     if not pt.leaves(base):
         base = ("tuple", [("leaf", 0), ("leaf", 0)])
@@ -310,8 +324,11 @@ def c16_case(draw):
             if i in int_positions:
                 shapes.append("int")
                 continue
+            if wrap == "optional" and draw(st.integers(0, 3)) == 0:
+                shapes.append("none")  # a None leaf at this position of this tree (other trees may have an array here)
+                continue
             label = f"(Leaf {0 if wrap == 'nested' else i} in structure T) "
-            prev = [s_ for s_ in shapes if s_ != "int"]
+            prev = [s_ for s_ in shapes if s_ not in ("int", "none")]
             if alias and ti == 0 and prev and draw(st.integers(0, 3)) != 0:
                 shp = tuple(prev[0])  # tied weights: later positions repeat the first leaf's shape
             else:
@@ -327,7 +344,7 @@ def c16_case(draw):
     if ntrees >= 2 and mutation != "none":
         k = draw(st.integers(1, ntrees - 1))
         lv = [lf[1] for lf in pt.leaves(trees[k])]
-        arr_idx = [i for i, p in enumerate(lv) if p != "int"]
+        arr_idx = [i for i, p in enumerate(lv) if p not in ("int", "none")]
         if mutation == "swap" and len(arr_idx) >= 2:
             i, j = draw(st.permutations(arr_idx))[:2]
             lv[i], lv[j] = lv[j], lv[i]
